@@ -29,6 +29,9 @@ Inductive wtag := Roll | Attach | Write | Count.
 (** Does attaching metadata store the caller's object or a copy? (generated) *)
 Inductive attach_kind := Alias | Copy.
 
+(** What a lazy-pool worker does when the mapped function raises (generated). *)
+Inductive wmode := Die | Forward.
+
 (** Association lists in insertion order (Python dicts). *)
 Section Assoc.
   Context {K V : Type} (eqb : K -> K -> bool).
